@@ -34,12 +34,14 @@ EXEC_TRUST = ["Go runtime semantics assumed by the executor models: buffered cha
 PROPS = {
     "C10": dict(
         components=[("receiver", 2000, 100000)],
+        parallel=8,
         trusted=RECEIVER_TRUST,
         assumptions=["end-of-partition signals name partitions 0..n-1 of the topic; types without '-' (C12's restriction); "
                      "a JSON value of the right shape always decodes (e.g. {} decodes to the empty message)"],
     ),
     "C12": dict(
         components=[("receiver", 2000, 100000)],
+        parallel=8,
         seed_offset=104729,
         trusted=RECEIVER_TRUST,
         assumptions=["types without '-' (stated restriction); collision witness for types with '-' is a theorem"],
